@@ -48,8 +48,7 @@ Theorem C03_precedence : forall cfg calls O now auths sigs cs log,
   do_check_auth O a now auths sigs cs = Ok log ->
   exists rs, Forall2 (decides O a now (map fst sigs)) cs rs /\
     filter is_enf log = concat (map (fun cr => enforce_calls (map fst sigs) (fst cr) (snd cr)) (combine cs rs)) /\
-    forall cr p, In cr (combine cs rs) -> In p (r_policies (snd cr)) ->
-      o_enforce O p (fst cr) (filter (fun s => mem_s s (map fst sigs)) (r_signers (snd cr))) (snd cr) = true.
+    accepted_seq O [] (concat (map (fun cr => enforce_calls (map fst sigs) (fst cr) (snd cr)) (combine cs rs))) = true.
 Proof. exact precedence_reachable. Qed.
 Print Assumptions C03_precedence.
 
@@ -129,8 +128,9 @@ Print Assumptions C03_foreign_signers_dont_count.
 
 (* Completeness. If no can_enforce hook traps, all supplied signatures verify and every context
    has SOME stored, applicable, unexpired rule whose requirement is met, then every context has a
-   deciding rule, and the check succeeds if every enforce hook of the deciding rules accepts -
-   and fails only if one of those hooks refuses. *)
+   deciding rule, and the check succeeds if the enforce hooks of the deciding rules accept one after
+   the other ([accepted_seq]: each enforce call sees the effects of the calls before it in the same
+   check - hooks are stateful) - and fails only if one of those hooks refuses. *)
 Theorem C03_complete : forall cfg calls O now auths sigs cs,
   let a := s_acct (run cfg init calls) in
   (forall p c au r, o_can O p c au r <> None) ->
@@ -146,12 +146,9 @@ Theorem C03_complete : forall cfg calls O now auths sigs cs,
       (r_policies r <> [] /\ forall p, In p (r_policies r) ->
          o_can O p c (filter (fun s => mem_s s (map fst sigs)) (r_signers r)) r = Some true))) ->
   exists rs, Forall2 (decides O a now (map fst sigs)) cs rs /\
-    ((forall cr p, In cr (combine cs rs) -> In p (r_policies (snd cr)) ->
-        o_enforce O p (fst cr) (filter (fun s => mem_s s (map fst sigs)) (r_signers (snd cr))) (snd cr) = true) ->
-     exists log, do_check_auth O a now auths sigs cs = Ok log) /\
-    ((exists cr p, In cr (combine cs rs) /\ In p (r_policies (snd cr)) /\
-        o_enforce O p (fst cr) (filter (fun s => mem_s s (map fst sigs)) (r_signers (snd cr))) (snd cr) = false) ->
-     do_check_auth O a now auths sigs cs = Fail).
+    let calls := concat (map (fun cr => enforce_calls (map fst sigs) (fst cr) (snd cr)) (combine cs rs)) in
+    (accepted_seq O [] calls = true -> exists log, do_check_auth O a now auths sigs cs = Ok log) /\
+    (accepted_seq O [] calls = false -> do_check_auth O a now auths sigs cs = Fail).
 Proof. exact complete_reachable. Qed.
 Print Assumptions C03_complete.
 
@@ -282,9 +279,9 @@ Example C03_ex_bad_signature :
 Proof. vm_compute. reflexivity. Qed.
 (* rule 1 is live at 12 and expired at 13 *)
 Example C03_ex_expiry :
-  is_ok (do_check_auth (mkOracles (fun _ _ _ => Some true) (fun _ _ _ _ => Some false) (fun _ _ _ _ => true) (fun _ _ _ => true) (fun _ _ => true))
+  is_ok (do_check_auth (mkOracles (fun _ _ _ => Some true) (fun _ _ _ _ => Some false) (fun _ _ _ _ _ => true) (fun _ _ _ => true) (fun _ _ => true))
            (s_acct st_ex) 12 [1%N] [(A1, SGood); (X0, SGood)] [CCall 1 0]) = true /\
-  is_ok (do_check_auth (mkOracles (fun _ _ _ => Some true) (fun _ _ _ _ => Some false) (fun _ _ _ _ => true) (fun _ _ _ => true) (fun _ _ => true))
+  is_ok (do_check_auth (mkOracles (fun _ _ _ => Some true) (fun _ _ _ _ => Some false) (fun _ _ _ _ _ => true) (fun _ _ _ => true) (fun _ _ => true))
            (s_acct st_ex) 13 [1%N] [(A1, SGood); (X0, SGood)] [CCall 1 0]) = false.
 Proof. vm_compute. split; reflexivity. Qed.
 (* the hypotheses of C03_complete are satisfiable: O_ex never traps *)
@@ -292,6 +289,8 @@ Example C03_ex_no_trap : forall p c au r, o_can O_ex p c au r <> None.
 Proof.
   intros p c au r. unfold O_ex. cbn [o_can oracles_of]. unfold can_answer.
   destruct (N.eqb p real_thr); [discriminate|].
+  destruct (N.eqb p real_spend).
+  { assert (E : md_spend (s_modes st_ex) = []) by (vm_compute; reflexivity). rewrite E. cbn. discriminate. }
   assert (H : forall q id, m_can (mode_of (s_modes st_ex) q id) = PTrue \/ m_can (mode_of (s_modes st_ex) q id) = PMin 1).
   { intros q id. unfold mode_of. vm_compute md_table. cbn [mtable_get]. destruct (N.eqb q 2 && (id =? 2)); cbn; auto. }
   destruct (H p (r_id r)) as [-> | ->]; cbn; discriminate.
@@ -314,6 +313,28 @@ Example C03_ex_threshold_2_of_3 :
   is_ok (do_check_auth (oracles_of (s_modes st_thr)) (s_acct st_thr) 10 [1%N] [(A1, SGood); (X1, SBad)] [CCall 2 0]) = false.
 Proof. vm_compute. repeat split. Qed.
 
+(* the real spending-limit policy: limit 100 per 20 ledgers on transfers of contract 2 (parameter
+   100 * 8 + 4).  The rule decides every context of a batch and is enforced once per context
+   against the policy's state: the recorded total is the sum of the batch, and a batch whose
+   amounts fit one by one but not together is refused as a whole. *)
+Definition hist_spend : list call :=
+  hist ++ [ Admin admin_sig [0%N] (AddRule (TCall 2) 3%N None [X0] [(real_spend, 804%N)]) ].
+Definition st_sp : state := run cfg15 init hist_spend.
+Definition xsig : list (signer * sigc) := [(X0, SGood)].
+Example C03_ex_spending_batch :
+  (* 30 + 30 in one batch: accepted, both recorded *)
+  option_map (fun d => (sp_cached d, sp_hist d))
+    (spend_get (md_spend (s_modes (run cfg15 st_sp [CheckAuth xsig [] [CTransfer 2 30; CTransfer 2 30]]))) 3)
+    = Some (60, [(30, 10); (30, 10)]) /\
+  (* 60 + 60: each fits, together they do not: refused, nothing recorded *)
+  snd (step cfg15 st_sp (CheckAuth xsig [] [CTransfer 2 60; CTransfer 2 60])) = Fail /\
+  option_map sp_cached (spend_get (md_spend (s_modes (run cfg15 st_sp [CheckAuth xsig [] [CTransfer 2 60; CTransfer 2 60]]))) 3) = Some 0 /\
+  (* after 60 was spent, 41 more is refused, 40 accepted; 20 ledgers later the window has rolled over *)
+  snd (step cfg15 (run cfg15 st_sp [CheckAuth xsig [] [CTransfer 2 60]]) (CheckAuth xsig [] [CTransfer 2 41])) = Fail /\
+  is_ok (snd (step cfg15 (run cfg15 st_sp [CheckAuth xsig [] [CTransfer 2 60]]) (CheckAuth xsig [] [CTransfer 2 40]))) = true /\
+  is_ok (snd (step cfg15 (run cfg15 st_sp [CheckAuth xsig [] [CTransfer 2 60]; Advance 20]) (CheckAuth xsig [] [CTransfer 2 100]))) = true /\
+  is_ok (snd (step cfg15 (run cfg15 st_sp [CheckAuth xsig [] [CTransfer 2 60]; Advance 19]) (CheckAuth xsig [] [CTransfer 2 100]))) = false.
+Proof. vm_compute. repeat split. Qed.
 (* ------------------------------------------------------------------------- *)
 (* The monitor is not trivially true: hand-made bad traces are rejected.      *)
 (* ------------------------------------------------------------------------- *)
@@ -413,3 +434,14 @@ Proof. vm_compute. reflexivity. Qed.
 Example C03_monitor_rejects_unauthorised_admin :
   snd (fst (check (forged (Admin [(A1, SGood)] [1%N] (RemoveRule 0)) (Ok (None, []))))) = 6%N.
 Proof. vm_compute. reflexivity. Qed.
+(* the monitor rejects a success of the over-limit batch, and a batch enforced only once *)
+Example C03_monitor_rejects_over_limit_batch :
+  snd (fst (check (cfg15, set_last_outcome (Ok (None, []))
+     (snd (observe_model cfg15 types_ex (hist_spend ++ [CheckAuth xsig [] [CTransfer 2 60; CTransfer 2 60]])))))) = 7%N.
+Proof. vm_compute. reflexivity. Qed.
+Example C03_monitor_rejects_enforce_once_per_rule :
+  snd (fst (check (cfg15, set_last_outcome
+     (Ok (None, [EVerify 0 0 SGood; EEnforce real_spend (CTransfer 2 30) [X0] (mkRule 3 (TCall 2) 3%N None [X0] [real_spend])]))
+     (snd (observe_model cfg15 types_ex (hist_spend ++ [CheckAuth xsig [] [CTransfer 2 30; CTransfer 2 30]])))))) = 7%N.
+Proof. vm_compute. reflexivity. Qed.
+
